@@ -39,7 +39,10 @@ MANIFEST = dict(
          'certificates against gradient_3D.gradient_of; np.linalg.inv / np.linalg.lstsq only as contracts (checked on samples through the results); '
          'pandas plumbing (groupby, sort, de-duplication "keep first", Series alignment) is covered by correspondence/relations, not by theorems; '
          'the Lstsq and HotSpot models are hand-written (HotSpot tied by vm_compute correspondence on integer-valued fields with dyadic limit_frac, '
-         'float fields only against an independent Python reference of the property); floating-point rounding outside the theorems.',
+         'float fields only against an independent Python reference of the property); floating-point rounding outside the theorems. '
+         'The theorems hold under "the Jacobian handed to inv is regular"; that the kernels do reach inv for every regular Jacobian (the only guard is '
+         'the except LinAlgError handler, any other guard is rejected by the translator) is checked on the implementation by the linear-field relation on '
+         'meshes expressed in length units 1e-9 .. 1e9 and with thin/long elements.',
     technique='Coq proof over symbolically translated element kernels (ring) + hand-written Gallina models; CoqInterval certificates; '
               'vm_compute correspondence; implementation-only relations for griddata / solid angles',
     design='6/C19')
@@ -149,11 +152,21 @@ def known_gradient_defect(d):
     return set(obs) == set(pred) and all(np.allclose(obs[k], pred[k], rtol=1e-7, atol=1e-9) for k in pred)
 
 
-def grad_tol(g, coords):
-    return 1e-8 * (1.0 + max(abs(x) for x in g))
+def grad_tol(g, coords, elements=None, values=None):
+    """1e-8 relative to the gradient.  For the meshes in other length units (elements / values given) additionally the
+    rounding of the nodal values themselves, which no exact algorithm can avoid: each value carries a relative error of
+    2^-53 and the gradient divides value differences by the element size, so an error of eps*max|f|/h is inherent
+    (it dominates for a constant field of size 5 on elements of 1e-8); allowed: 1e-12 * max|f| / (shortest node
+    distance inside an element), i.e. ~4500 eps for the conditioning of perturbed, sheared, 1:100 thin elements (measured: < 130 eps on 1000 meshes).  At unit
+    scale (|f| < 100, h > 0.1) this term is < 1e-9 and is not used."""
+    tol = 1e-8 * (1.0 + max(abs(x) for x in g))
+    if elements is not None:
+        h = min(math.dist(coords[a], coords[b]) for e in elements for i, a in enumerate(e) for b in e[i + 1:])
+        tol += 1e-12 * max(abs(v) for v in values) / h
+    return tol
 
 
-def check_linear(res, acc, mesh, g, c, idkind, node_ids, elem_ids, row_order, flip, rng, stats, stat='linear_', **info):
+def check_linear(res, acc, mesh, g, c, idkind, node_ids, elem_ids, row_order, flip, rng, stats, stat='linear_', value_rounding=False, **info):
     coords, elements = mesh
     values = mg.linear_values(coords, g, c)
     st, out = run_gradient(acc, coords, elements, node_ids, elem_ids, values, row_order, flip, rng)
@@ -167,7 +180,8 @@ def check_linear(res, acc, mesh, g, c, idkind, node_ids, elem_ids, row_order, fl
     if sorted(out) != sorted(node_ids):
         res.violation(what, mesh=mj, observed={str(k): v for k, v in out.items()}, expected='one row per node id')
         return False
-    tol = grad_tol(g, coords)
+    tol = grad_tol(g, coords, elements, values) if value_rounding else grad_tol(g, coords)
+    mj['tolerance'] = tol
     worst = max(max(abs(out[k][j] - g[j]) for j in range(3)) for k in out)
     if not worst <= tol:
         res.violation(what, mesh=mj, observed={str(k): v for k, v in out.items()}, max_error=worst,
@@ -224,11 +238,12 @@ def check_quadratic_rows(res, rng, stats):
         st, out = run_gradient('gradient_3D', pts, [tuple(range(nrows))], ids, [rng.randint(1, 99)], vals)
         stats['quadratic_rows'] = stats.get('quadratic_rows', 0) + 1
         mj = mg.mesh_json(pts, [tuple(range(nrows))], ids, [1], values=vals, linear_field=dict(g=list(g), c=c), accessor='gradient_3D',
-                          length_unit=unit)
+                          length_unit=unit, corner_rows=k)
         if st != 'ok':
             res.violation(WHAT_G3, mesh=mj, observed=st, detail=out)
             continue
-        tol = grad_tol(g, pts)
+        tol = grad_tol(g, pts) if unit == 1.0 else grad_tol(g, pts, [tuple(range(k))], vals)
+        mj['tolerance'] = tol
         okc = all(abs(out[ids[a]][j] - g[j]) <= tol for a in range(k) for j in range(3))
         okz = all(out[ids[a]] == (0.0, 0.0, 0.0) for a in range(k, nrows))
         if not (okc and okz):
@@ -287,7 +302,10 @@ def gradient_relations(res, rng, n_mesh, stats):
         # the same mesh in another length unit (cycling through UNITS separately for hexahedra and tetrahedra, so that
         # every tier sees small and large units for both kernels), linear field, one id map, both operators
         unit = UNITS[(unit0 + m // 2) % len(UNITS)]
-        ucoords = in_unit(coords, unit)
+        # ... and, half of the time, with one axis compressed / stretched by 100 (thin or long, still regular elements:
+        # a size test relative to the element's own dimensions is as wrong as an absolute one)
+        aspect, axis = rng.choice([1.0, 1.0, 1e-2, 1e2]), rng.randrange(3)
+        ucoords = [tuple(unit * v * (aspect if d == axis else 1.0) for d, v in enumerate(p)) for p in coords]
         ug, uc, ufield = unit_field(rng, g, c, unit)
         kind = rng.choice(kinds)
         node_ids = mg.id_map(kind, n, rng)
@@ -295,7 +313,7 @@ def gradient_relations(res, rng, n_mesh, stats):
         order = rng.choice(['blocks', 'shuffled_blocks'])
         for acc in ('gradient_3D', 'gradient'):
             check_linear(res, acc, (ucoords, elements), ug, uc, kind, node_ids, elem_ids, order, False, rng, stats,
-                         stat='linear_other_length_unit_', length_unit=unit, field=ufield)
+                         stat='linear_other_length_unit_', value_rounding=True, length_unit=unit, field=ufield, axis_factor=[axis, aspect])
     check_quadratic_rows(res, rng, stats)
 
 
@@ -738,7 +756,9 @@ def run(res):
                         'HotSpot model values are integers and limit_frac dyadic in the correspondence (exact in doubles); arbitrary doubles only against the Python reference',
                         'scipy griddata and the solid-angle surface detection are not modelled: relations on the implementation only',
                         'duplicate (element_id, node_id) rows and NaN values are outside the property']
-    res.cov['rule'] = ('perturbed (jitter <= 0.2 cell), anisotropically scaled and sheared hexahedral blocks up to 3x2x2 (quick) / 4x4x4 (thorough) and their 5-tetrahedra splits, node-id maps '
+    res.cov['rule'] = ('perturbed (jitter <= 0.2 cell), anisotropically scaled and sheared hexahedral blocks up to 3x2x2 (quick) / 4x4x4 (thorough) and their 5-tetrahedra splits, '
+                       'each also expressed in another length unit (1e-9 .. 1e9, cycling per kernel; one axis x 0.01 / x 100 in half of them), mapping targets as cloud / axis-parallel plane / '
+                       'line / oblique plane / single / repeated point and subsets of the source nodes (one node, one element, one exactly plane layer), node-id maps '
                        '{1..N, offset, gaps, reversed, shuffled, zero based, sparse shuffled}, element-id maps, element blocks shuffled, index levels flipped, '
                        'random linear fields (15 % constant) and one non-linear field for renumbering; hot spots: random (element,node) row sets with small integer '
                        'values (ties) and block meshes with 1-3 peaks, limit_frac k/q (q | 16) incl. 0 and > 1, 20 % artefact thresholds; non-trivial = '
@@ -794,7 +814,10 @@ def replay(res, rp):
                                                    for i in range(n) for j in range(3))
         else:
             g = m['linear_field']['g']
-            bad = st != 'ok' or any(abs(out[k][j] - g[j]) > 1e-8 * (1 + max(abs(x) for x in g)) for k in out for j in range(3))
+            tol = m.get('tolerance', 1e-8 * (1 + max(abs(x) for x in g)))
+            nc = m.get('corner_rows', len(m['node_ids']))      # 16/20/10-row elements: the other rows stay zero
+            want = {nid: (g if i < nc else [0.0, 0.0, 0.0]) for i, nid in enumerate(m['node_ids'])}
+            bad = st != 'ok' or sorted(out) != sorted(want) or any(not abs(out[k][j] - want[k][j]) <= tol for k in out for j in range(3))
         print('replay:', acc, st, 'violates' if bad else 'holds')
         if bad:
             new = res.violation(what, mesh=m, observed=st if st != 'ok' else {str(k): x for k, x in out.items()})
